@@ -7,6 +7,7 @@
                         a concurrent stop())
      point 62  p_join : stop() joins one swapped-out worker; enabled when that worker has left worker()
      point 63  p_peek : thread_pool::current's await_ready reads _current->_exit (without the lock)
+     point 64  jwait  : a job that waits for another submission's outcome continues
      point  9  xwait  : client 0 waits until every other client thread has returned, then runs ~thread_pool
    The condition variable: notify_all flags every thread that is sleeping at that moment (`woken`); notify_one
    adds an anonymous token while fewer tokens than unflagged sleepers exist (a notify_all subsumes pending tokens).  A sleeper wakes by clearing its flag
@@ -32,7 +33,8 @@ Inductive act :=
 | ASub (k : ckind) (lbl : nat)   (* submit one more closure (its own body is empty); run_detached from a worker is ASub KDet *)
 | AStop                          (* stop() on its own pool *)
 | AQry (q : nat)                 (* 0: current::is_stopped()   1: current::any_enqueued() *)
-| ACurHop (lbl : nat).           (* co_await thread_pool::current(): the rest of the body continues as the hop's body *)
+| ACurHop (lbl : nat)            (* co_await thread_pool::current(): the rest of the body continues as the hop's body *)
+| AWait (lbl : nat).             (* the job blocks until the submission with this label has run or was cancelled (e.g. waits on its future) *)
 Definition body := list act.
 
 Record clo := mkClo {
@@ -45,7 +47,8 @@ Record clo := mkClo {
   ccanc : nat      (* times a cancellation reached the waiter *)
 }.
 
-Inductive cop := OSub (lbl : nat) (k : ckind) (b : body) | OStop | OWorker.
+Inductive cop := OSub (lbl : nat) (k : ckind) (b : body) | OStop | OWorker
+  | OWait (lbl : nat).     (* the client blocks until the submission has run or was cancelled (waits on its result) *)
 (* what the thread does when its stop() returns *)
 Inductive after := AClient (prog : list cop) | ADtor | AWorker (det : bool) (r : body).
 
@@ -61,6 +64,7 @@ Inductive pc :=
 | WPeek (lbl : nat) (r : body) (* inside a job, at p_peek of current::await_ready *)
 | WStop (r : body)             (* inside a job, at the p_lock point of stop() *)
 | WQry (q : nat) (r : body)    (* inside a job, at the p_lock point of is_stopped / any_enqueued *)
+| WWait (lbl : nat) (r : body) (* inside a job, blocked until submission lbl has an outcome *)
 | WExit                        (* pool thread left worker() (also: detached itself and returned) *)
 | Join (l q : list nat) (first : bool) (a : after)   (* inside stop(): joining head of l; q = swapped-out queue *)
 | SWait (l q : list nat) (a : after)   (* inside stop(): somebody else is stopping the pool; sleeping in _cond.wait until _stopped *)
@@ -154,6 +158,7 @@ Definition job_next (r : body) : pc :=
   | AStop :: r' => WStop r'
   | AQry q :: r' => WQry q r'
   | ACurHop l :: r' => WPeek l r'
+  | AWait l :: r' => WWait l r'
   end.
 
 (* stop() returns *)
@@ -230,11 +235,17 @@ Definition is_wexit (s : st) (w : nat) : bool :=
 Definition client_idle (p : pc) : bool := match p with CDone | CXWait => true | _ => false end.
 Definition xwait_ok (s : st) : bool := forallb client_idle (firstn (nclients s) (thrs s)).
 
+(* has the submission with this label been run or cancelled? *)
+Definition resolved (s : st) (lbl : nat) : bool :=
+  existsb (fun x => Nat.eqb (clbl x) lbl && Nat.ltb 0 (cran x + ccanc x)) (clos s).
+
 Definition enabled (s : st) (i : nat) : bool :=
   match nth_error (thrs s) i with
+  | Some (CAt (OWait l :: _)) => resolved s l
   | Some (CAt _) | Some CDtor | Some WIdle | Some (WSub _ _ _) | Some (WHop _ _) | Some (WPeek _ _)
   | Some (WStop _) | Some (WQry _ _) | Some (SFin _) => true
   | Some CXWait => xwait_ok s
+  | Some (WWait l _) => resolved s l
   | Some WSleep | Some (SWait _ _ _) => Nat.ltb 0 (tokens s) || is_woken s i
   | Some (Join (w :: _) _ _ _) => is_wexit s w
   | Some (Join [] _ _ _) => true
@@ -244,6 +255,7 @@ Definition enabled (s : st) (i : nat) : bool :=
 (* does the step of a thread at this pc use the pool object? (join and the lifetime wait do not) *)
 Definition touches (p : pc) : bool :=
   match p with
+  | CAt (OWait _ :: _) => false
   | CAt (_ :: _) | CDtor | WIdle | WSleep | WSub _ _ _ | WHop _ _ | WPeek _ _ | WStop _ | WQry _ _ | SWait _ _ _ | SFin _ => true
   | _ => false
   end.
@@ -258,6 +270,7 @@ Definition core (s : st) (i : nat) : st * Z * list ev :=
       let '(s1, e) := enqueue s i l k b in (with_thr s1 i (next_client i r), 60, e)
   | Some (CAt (OStop :: r)) => let '(s1, e) := stop_mark s i (AClient r) in (s1, 60, e)
   | Some (CAt (OWorker :: r)) => let '(s1, e) := worker_cs (with_ext s i r) i in (s1, 60, e)
+  | Some (CAt (OWait l :: r)) => (with_thr s i (next_client i r), 64, [])
   | Some (CAt []) => (with_thr s i (next_client i []), 60, [])
   | Some CXWait => (with_thr s i CDtor, 9, [])
   | Some CDtor => let '(s1, e) := stop_mark s i ADtor in (s1, 60, e)
@@ -268,6 +281,7 @@ Definition core (s : st) (i : nat) : st * Z * list ev :=
   | Some (WPeek l r) => (with_thr s i (if exit_ s then job_next r else WHop l r), 63, [])
   | Some (WStop r) => let '(s1, e) := stop_mark s i (AWorker false r) in (s1, 60, e)
   | Some (WQry q r) => (with_thr s i (job_next r), 60, [(Nat.b2n (qry_result s q), 10 + Z.of_nat q, i)])
+  | Some (WWait l r) => (with_thr s i (job_next r), 64, [])
   | Some (Join (_ :: (w :: l) as l') q f a) => (with_thr s i (Join l' q f a), 62, [])
   | Some (Join _ q f a) => let '(s1, e) := stop_end s i q f a in (s1, 62, e)
   | Some (SWait l q a) =>
@@ -318,7 +332,8 @@ Definition kind_of (z : Z) : option ckind :=
 Definition kind_code (k : ckind) : Z :=
   match k with KHop => 0 | KAwt => 1 | KRunFn => 2 | KDet => 3 | KResume => 4 | KRunAsync => 5 end.
 
-(* body actions: 0..5 submit a closure of that kind, 6 stop(), 7 is_stopped(), 8 any_enqueued(), 9 co_await current().
+(* body actions: 0..5 submit a closure of that kind, 6 stop(), 7 is_stopped(), 8 any_enqueued(), 9 co_await current(),
+   10+j wait for the outcome of submission j.
    The action at position idx of submission j creates label 100 + 10 j + idx.  Nothing follows a stop() (a job must
    not touch the pool after it stopped it); at most 6 actions. *)
 Fixpoint dec_body (base : nat) (idx : nat) (l : list Z) : option body :=
@@ -333,7 +348,9 @@ Fixpoint dec_body (base : nat) (idx : nat) (l : list Z) : option body :=
       | 9 => option_map (cons (ACurHop (base + idx))) (dec_body base (S idx) r)
       | _ => match kind_of z with
              | Some k => option_map (cons (ASub k (base + idx))) (dec_body base (S idx) r)
-             | None => None
+             | None => if (10 <=? z) && (z <? 50)
+                       then option_map (cons (AWait (Z.to_nat (z - 10)))) (dec_body base (S idx) r)
+                       else None
              end
       end
   end.
@@ -349,7 +366,8 @@ Definition add_op (d : dec) (cl : Z) (o : cop) (j k : nat) (x : list nat) : dec 
 
 (* ops:  [1; n]                       pool of n workers (1..4)
          [2; client; kind; a1; ...]   submission by client 0..2 with a body of at most 6 actions (< 40 submissions)
-         [3; client]                  stop()            [4; client]   the client thread calls worker()   (< 30 of these two)
+         [3; client]                  stop()            [4; client]   the client thread calls worker()
+         [5; client; j]               the client waits for the outcome of submission j      (< 30 of these three)
          [9; k1; k2; ...]             schedule
    the j-th accepted submission has label j *)
 Definition dec_op (d : dec) (op : list Z) : dec :=
@@ -363,6 +381,8 @@ Definition dec_op (d : dec) (op : list Z) : dec :=
       end
   | [3; cl] => if (0 <=? cl) && (cl <=? 2) && Nat.ltb (dk d) 30 then add_op d cl OStop (dj d) (S (dk d)) (dext d) else d
   | [4; cl] => if (0 <=? cl) && (cl <=? 2) && Nat.ltb (dk d) 30 then add_op d cl OWorker (dj d) (S (dk d)) (Z.to_nat cl :: dext d) else d
+  | [5; cl; l] => if (0 <=? cl) && (cl <=? 2) && (0 <=? l) && (l <? 40) && Nat.ltb (dk d) 30
+                  then add_op d cl (OWait (Z.to_nat l)) (dj d) (S (dk d)) (dext d) else d
   | _ => d
   end.
 Definition decode (ops : list (list Z)) : dec := fold_left dec_op ops (mkDec 1 0 0 0 [] [] [] []).
@@ -411,9 +431,9 @@ Section Weights.
 Context (K : nat).   (* number of threads *)
 
 Definition actw (a : act) : nat :=
-  match a with ASub _ _ => 8 | AStop => 4 * K + 20 | AQry _ => 2 | ACurHop _ => 12 end.
+  match a with ASub _ _ => 8 | AStop => 4 * K + 20 | AQry _ => 2 | ACurHop _ => 12 | AWait _ => 2 end.
 Fixpoint bw (r : body) : nat := match r with [] => 0 | a :: r' => actw a + bw r' end.
-Definition opw (o : cop) : nat := match o with OSub _ _ b => 8 + bw b | OStop => 4 * K + 20 | OWorker => 4 end.
+Definition opw (o : cop) : nat := match o with OSub _ _ b => 8 + bw b | OStop => 4 * K + 20 | OWorker => 4 | OWait _ => 2 end.
 Fixpoint progw (p : list cop) : nat := match p with [] => 0 | o :: r => opw o + progw r end.
 Definition endw (i : nat) : nat := if Nat.eqb i 0 then 4 * K + 22 else 0.
 (* weight of next_client i prog *)
@@ -436,6 +456,7 @@ Definition pcw (i : nat) (p : pc) : nat :=
   | WPeek _ r => 14 + bw r
   | WStop r => 4 * K + 22 + bw r
   | WQry _ r => 4 + bw r
+  | WWait _ r => 4 + bw r
   | WExit => 0
   | Join l _ f a => 2 * length l + 3 + (if f then K + 3 else 0) + aw i a
   | SWait l _ a => 2 * length l + 4 + aw i a
